@@ -182,6 +182,10 @@ impl<T> AtomicPtr<T> {
     pub fn get_mut(&mut self) -> &mut *mut T {
         self.0.get_mut()
     }
+    /// Ungated read, for snapshots.
+    pub fn raw_load(&self) -> *mut T {
+        self.0.load(Ordering::SeqCst)
+    }
     pub fn load(&self, ord: Ordering) -> *mut T {
         enter(Op::Load, self.addr(), ord);
         let r = self.0.load(ord);
